@@ -167,6 +167,9 @@ func famSesHs(t *testing.T, r *Rec) {
 			}
 		}
 	}
+	// values a configuration layer may mistake for "not set": an explicit zero is what the open packet must advertise
+	cfgs = append(cfgs, cfg{300, 0, 0, "default", true, false, "-", false}, cfg{25000, 0, 100, "polling,websocket,webtransport", true, true, "-", true},
+		cfg{300, 200, 0, "websocket", false, false, hx([]byte("hello")), false})
 	for ci, c := range cfgs {
 		lines := []string{fmt.Sprintf("ses cfg %d %d 1000 %d %s %s %s %s %s - hdr", c.I, c.T, c.max, c.transports, b01(c.upgrades), b01(c.eio3), c.initial, b01(c.cookie))}
 		enabled := c.transports
